@@ -2,6 +2,7 @@ SPECIFICATION Spec
 CONSTANTS
   Universe <- UniverseDef
   Registers <- RegistersDef
+  Platforms <- PlatformsDef
   LibClosure <- LibClosureObserved
   Needs <- NeedsDef
 INVARIANT NeverPanics
